@@ -51,9 +51,9 @@ def r2(c):
         for op, helper in (('add', DB + 'add_entry'), ('update', DB + 'update_entry'), ('get', DB + 'get_entry'), ('delete', None)):
             b = P.fn(DB + 'database_%s_%s' % (op, ty))
             c.saw(b, len(b.calls()))
-            am = one([cs for cs in b.calls() if cs.callee.endswith('::as_mut')], 'database.as_mut()')
+            am = one([cs for cs in b.calls() if (cs.callee.endswith('::as_mut') or cs.callee.endswith('::as_ref')) and q.is_name(b, cs.args[0], 'database')], 'database.as_mut() / as_ref()')
             oc = q.outcomes(b, am)
-            some, none = oc.get('Some', []), oc.get('None', [])
+            some, none = oc.get('success', []), oc.get('failure', [])
             if helper:
                 hc = b.calls(helper)
                 ok = len(hc) == 1 and q.dominated_by_any(b, some, hc[0].node)
@@ -75,7 +75,7 @@ def r2(c):
                     ok = ok and len(isome) == 1 and bool(xs) and all(x['kind'] == 'call' and x['cs'] is isome[0] for x in xs)
             nx = [x for x in q.exits(b) if any(q.dom(b, e, x['node']) for e in none)]
             if op == 'get':
-                okn = bool(nx) and all(x['kind'] == 'agg' and x['variant'] == 'Err' and (q.agg_variant_of(b, x['rv']['a'][0]) or ('', ''))[1] == 'NullParameter' for x in nx)
+                okn = bool(nx) and all((q.exit_error(b, x) or ('', None))[0] == 'variant' and q.exit_error(b, x)[1][1] == 'NullParameter' for x in nx)
             else:
                 okn = bool(nx) and all(x['kind'] == 'const' and x['op'].get('val') == '0' for x in nx)
             c.ob('%s_%s' % (op, ty), ok and okn, 'database_%s_%s acts on database.%s[index] through %s; null -> %s' % (op, ty, fld, (helper or 'remove(..).is_some()').rsplit('::', 1)[-1], 'NullParameter' if op == 'get' else 'false'), '', loc_of(b))
